@@ -203,6 +203,7 @@ enum UnionMode {
 /// This is used for type checking (can I assign this value to this variable?).
 pub fn is_compatible<T: TypeLookup>(self_id: usize, pattern_id: usize, lookup: &T) -> bool {
     let mut assumptions = HashSet::new();
+    let mut self_stack = Vec::new();
     let mut type_stack = Vec::new();
     check_type_relation(
         self_id,
@@ -210,6 +211,7 @@ pub fn is_compatible<T: TypeLookup>(self_id: usize, pattern_id: usize, lookup: &
         lookup,
         UnionMode::All,
         &mut assumptions,
+        &mut self_stack,
         &mut type_stack,
     )
 }
@@ -222,6 +224,7 @@ pub fn is_compatible<T: TypeLookup>(self_id: usize, pattern_id: usize, lookup: &
 /// This is used for pattern matching (could this value possibly match this pattern?).
 pub fn types_overlap<T: TypeLookup>(self_id: usize, pattern_id: usize, lookup: &T) -> bool {
     let mut assumptions = HashSet::new();
+    let mut self_stack = Vec::new();
     let mut type_stack = Vec::new();
     check_type_relation(
         self_id,
@@ -229,6 +232,7 @@ pub fn types_overlap<T: TypeLookup>(self_id: usize, pattern_id: usize, lookup: &
         lookup,
         UnionMode::Any,
         &mut assumptions,
+        &mut self_stack,
         &mut type_stack,
     )
 }
@@ -248,6 +252,7 @@ fn check_type_relation<T: TypeLookup>(
     lookup: &T,
     mode: UnionMode,
     assumptions: &mut HashSet<(usize, usize)>,
+    self_stack: &mut Vec<usize>,
     type_stack: &mut Vec<usize>,
 ) -> bool {
     // Fast path: same ID always satisfies the relation
@@ -288,17 +293,24 @@ fn check_type_relation<T: TypeLookup>(
         // Type variables match anything
         (Type::Variable(_), _) | (_, Type::Variable(_)) => true,
 
-        // When both are cycles with same depth, they refer to the same recursive type
-        (Type::Cycle(d1), Type::Cycle(d2)) if d1 == d2 => true,
-
         // Handle cycles by looking up the type in the stack
+        // A back-reference on the left points into the boundaries of the LEFT type: resolve it on
+        // the stack of enclosing self types, not on the pattern's.
         (Type::Cycle(depth), _) => {
-            if type_stack.len() < *depth {
+            if self_stack.len() < *depth {
                 return true; // Coinductive reasoning
             }
-            let lookup_index = type_stack.len() - *depth;
-            if let Some(&stack_id) = type_stack.get(lookup_index) {
-                check_type_relation(stack_id, pattern_id, lookup, mode, assumptions, type_stack)
+            let lookup_index = self_stack.len() - *depth;
+            if let Some(&stack_id) = self_stack.get(lookup_index) {
+                check_type_relation(
+                    stack_id,
+                    pattern_id,
+                    lookup,
+                    mode,
+                    assumptions,
+                    self_stack,
+                    type_stack,
+                )
             } else {
                 true
             }
@@ -310,7 +322,15 @@ fn check_type_relation<T: TypeLookup>(
             }
             let lookup_index = type_stack.len() - *depth;
             if let Some(&stack_id) = type_stack.get(lookup_index) {
-                check_type_relation(self_id, stack_id, lookup, mode, assumptions, type_stack)
+                check_type_relation(
+                    self_id,
+                    stack_id,
+                    lookup,
+                    mode,
+                    assumptions,
+                    self_stack,
+                    type_stack,
+                )
             } else {
                 true
             }
@@ -324,6 +344,11 @@ fn check_type_relation<T: TypeLookup>(
             let snapshot = assumptions.clone();
             assumptions.insert(key);
 
+            let self_already_on_stack = self_stack.contains(&self_id);
+            if !self_already_on_stack {
+                self_stack.push(self_id);
+            }
+
             let result = match mode {
                 UnionMode::All => variants.iter().all(|&variant_id| {
                     check_type_relation(
@@ -332,6 +357,7 @@ fn check_type_relation<T: TypeLookup>(
                         lookup,
                         mode,
                         assumptions,
+                        self_stack,
                         type_stack,
                     )
                 }),
@@ -342,10 +368,14 @@ fn check_type_relation<T: TypeLookup>(
                         lookup,
                         mode,
                         assumptions,
+                        self_stack,
                         type_stack,
                     )
                 }),
             };
+            if !self_already_on_stack {
+                self_stack.pop();
+            }
             if !result {
                 *assumptions = snapshot;
             }
@@ -366,7 +396,7 @@ fn check_type_relation<T: TypeLookup>(
                 type_stack.push(pattern_id);
             }
             let result = variants.iter().any(|&variant_id| {
-                check_type_relation(self_id, variant_id, lookup, mode, assumptions, type_stack)
+                check_type_relation(self_id, variant_id, lookup, mode, assumptions, self_stack, type_stack)
             });
             if !already_on_stack {
                 type_stack.pop();
@@ -405,6 +435,7 @@ fn check_type_relation<T: TypeLookup>(
                                 lookup,
                                 mode,
                                 assumptions,
+                                self_stack,
                                 type_stack,
                             )
                     },
@@ -443,6 +474,7 @@ fn check_type_relation<T: TypeLookup>(
                                 lookup,
                                 mode,
                                 assumptions,
+                                self_stack,
                                 type_stack,
                             )
                     })
@@ -482,6 +514,7 @@ fn check_type_relation<T: TypeLookup>(
                         lookup,
                         mode,
                         assumptions,
+                        self_stack,
                         type_stack,
                     ),
                     None => matches!(mode, UnionMode::Any),
@@ -520,6 +553,7 @@ fn check_type_relation<T: TypeLookup>(
                                 lookup,
                                 mode,
                                 assumptions,
+                                self_stack,
                                 type_stack,
                             )
                     })
@@ -539,14 +573,14 @@ fn check_type_relation<T: TypeLookup>(
         ) => {
             let send_ok = match (send1, send2) {
                 (Some(s1), Some(s2)) => {
-                    check_type_relation(*s1, *s2, lookup, mode, assumptions, type_stack)
+                    check_type_relation(*s1, *s2, lookup, mode, assumptions, self_stack, type_stack)
                 }
                 (None, _) | (_, None) => true,
             };
 
             let receive_ok = match (receive1, receive2) {
                 (Some(r1), Some(r2)) => {
-                    check_type_relation(*r1, *r2, lookup, mode, assumptions, type_stack)
+                    check_type_relation(*r1, *r2, lookup, mode, assumptions, self_stack, type_stack)
                 }
                 (None, _) | (_, None) => true,
             };
@@ -577,16 +611,22 @@ fn check_type_relation<T: TypeLookup>(
             if !already_on_stack {
                 type_stack.push(pattern_id);
             }
+            let self_already_on_stack = self_stack.contains(&self_id);
+            if !self_already_on_stack {
+                self_stack.push(self_id);
+            }
 
-            // Parameters are contravariant, results are covariant, receive is contravariant
+            // Parameters are contravariant, results are covariant, receive is contravariant. In
+            // the contravariant positions the two sides swap roles, and so do their stacks.
             let result =
-                check_type_relation(*param2, *param1, lookup, mode, assumptions, type_stack)
+                check_type_relation(*param2, *param1, lookup, mode, assumptions, type_stack, self_stack)
                     && check_type_relation(
                         *result1,
                         *result2,
                         lookup,
                         mode,
                         assumptions,
+                        self_stack,
                         type_stack,
                     )
                     && check_type_relation(
@@ -596,7 +636,12 @@ fn check_type_relation<T: TypeLookup>(
                         mode,
                         assumptions,
                         type_stack,
+                        self_stack,
                     );
+
+            if !self_already_on_stack {
+                self_stack.pop();
+            }
 
             if !already_on_stack {
                 type_stack.pop();
